@@ -327,8 +327,9 @@ func (tdsChan *Channel) SetLastPkgTx(pkg Package) {
 //
 // If wait is false a ErrNoPackageReady error may be returned.
 //
-// If multiple errors and a package are ready a random error or package
-// will be returned, as stated in the spec for select.
+// If multiple errors are ready a random error will be returned, as
+// stated in the spec for select. A queued package is returned before an
+// error of the connection.
 func (tdsChan *Channel) NextPackage(ctx context.Context, wait bool) (Package, error) {
 	tdsChan.RLock()
 	defer tdsChan.RUnlock()
@@ -365,6 +366,21 @@ func (tdsChan *Channel) NextPackage(ctx context.Context, wait bool) (Package, er
 	case <-tdsChan.tdsConn.ctx.Done():
 		return nil, fmt.Errorf("connection context is closed: %w", tdsChan.tdsConn.ctx.Err())
 	case err := <-tdsChan.tdsConn.errCh:
+		// The packages received before the connection failed are queued
+		// before the error is reported. A package may have been queued
+		// since the attempt above - it is returned first and the error
+		// is reported once the queued packages have been consumed.
+		select {
+		case pkg := <-tdsChan.packageCh:
+			select {
+			case tdsChan.tdsConn.errCh <- err:
+			default:
+				// The error queue is full of further errors, one of
+				// them will be reported.
+			}
+			return pkg, nil
+		default:
+		}
 		return nil, fmt.Errorf("error in TDS connection: %w", err)
 	case err := <-tdsChan.errCh:
 		return nil, fmt.Errorf("error in TDS channel %d: %w",
